@@ -131,3 +131,27 @@ Proof.
   { destruct Hsel as [Hb|[H1 H2]]; [apply file_walk_isolated|apply file_walk_first_wins]; assumption. }
   rewrite Ew. apply gen_walk_refines_spec; assumption.
 Qed.
+
+(* an INIT record without a range (size 0, or address + size beyond u64) is invisible: the table of the file is the
+   table of the file without it, so every lookup and every unwind step is unchanged *)
+Theorem rangeless_invisible : forall p r1 r r2, u64_file (r1 ++ r :: r2) ->
+  (c_size r = 0 \/ two64 <= fst (c_init r) + c_size r) ->
+  cfi_file_table p (r1 ++ r :: r2) = cfi_file_table p (r1 ++ r2).
+Proof.
+  intros p r1 r r2 H Hn.
+  assert (H' : u64_file (r1 ++ r2)).
+  { unfold u64_file in *. apply Forall_app in H. destruct H as [A B]. inversion B; subst. apply Forall_app. split; assumption. }
+  destruct (file_table_eq p _ H) as [-> _]. destruct (file_table_eq p _ H') as [-> _]. do 2 f_equal.
+  unfold file_recs. rewrite !map_app, !keep_ranged_app. cbn [map keep_ranged pure_rec].
+  assert (Hr : mk_range (fst (c_init r)) (c_size r) = None).
+  { unfold mk_range, checked_add. destruct (c_size r =? 0) eqn:E0; [reflexivity|].
+    destruct Hn as [Hn|Hn]; [apply Z.eqb_neq in E0; contradiction|].
+    destruct (fst (c_init r) + c_size r <? 2 ^ 64) eqn:E1; [|reflexivity].
+    apply Z.ltb_lt in E1. rewrite two64_val in Hn. lia. }
+  rewrite Hr. reflexivity.
+Qed.
+
+Corollary rangeless_invisible_walk : forall S (ops : wops S) p E r1 r r2 addr s, u64_file (r1 ++ r :: r2) ->
+  (c_size r = 0 \/ two64 <= fst (c_init r) + c_size r) ->
+  gen_walk_file ops p E (r1 ++ r :: r2) addr s = gen_walk_file ops p E (r1 ++ r2) addr s.
+Proof. intros. unfold gen_walk_file. rewrite (rangeless_invisible p r1 r r2); [reflexivity|assumption|assumption]. Qed.
